@@ -122,7 +122,10 @@ Proof.
     destruct (fresh st n) eqn:Hf; cbn [negb fst]; [|left; reflexivity].
     pose proof (admit_pub_sess cf st PsPs s n (fx_f09 fx)) as Hs.
     destruct (admit_pub cf st PsPs s n (fx_f09 fx)) as [[st1 ok] g]. cbn [fst] in Hs.
-    destruct ok; cbn [fst]; [eapply arrival_change with (n := n) (a := true)|eapply arrival_change with (n := n) (a := false)]; try reflexivity; assumption.
+    destruct ok; cbn [fst]; [destruct listen; cbn [fst];
+      [eapply arrival_change with (n := n) (a := true)
+      |eapply arrival_change with (n := n) (a := false); [exact (get_or_create_sess cf st s)|..]]
+     |eapply arrival_change with (n := n) (a := false)]; try reflexivity; assumption.
   - (* EGone *)
     destruct (find_sess n (st_sess st)) as [x|] eqn:Ex; cbn [fst]; [|left; reflexivity].
     destruct (s_gone x) eqn:Eg; cbn [fst]; [left; reflexivity|].
